@@ -21,6 +21,15 @@ SQL expression}:
   negative      Core executemany whose later dict lacks a key of the first: must raise
                 (or else behave per the model) - never silently store something else.
 
+Declaration styles: the same table is declared in one of: Table(Column...), Table.to_metadata(),
+Table(..., extend_existing=True) over a stub, Column._copy(), declarative mapped_column(), pep-593
+``Annotated[T, mapped_column(<some generators>)]`` with the remaining generators (``default=`` /
+``insert_default=`` / ``onupdate=`` / ``server_default=``) on the attribute's own right-hand
+mapped_column(), a registry type_annotation_map supplying the SQL type, a mixin (attribute and
+declared_attr), MappedAsDataclass (dataclass ``default=None`` + insert_default), and dataclass +
+Annotated.  First the Table column must carry every declared generator, then the whole
+supplied/omitted matrix below runs on it (ORM part through the declaring class).
+
 Oracle: a small model of "supplied vs omitted".  Callable defaults hand out unique
 tokens and log every call, the context-sensitive default derives its value from *the
 current row's* payload (``get_current_parameters()``), so a stored value identifies
@@ -55,7 +64,8 @@ META = {
     "soft_s": {"quick": 50, "thorough": 800},
     "exhaustive": {"quick": False, "thorough": False},
     "require": ["cells_checked", "default_calls_accounted", "supplied_none_cells", "supplied_falsy_cells",
-                "onupdate_fired_cells", "orm_cells_checked", "returned_values_checked"],
+                "onupdate_fired_cells", "orm_cells_checked", "returned_values_checked",
+                "declared_generators_checked"],
     "assumptions": ["model of documented supplied/omitted semantics (about 40 lines)"],
 }
 
@@ -74,9 +84,16 @@ class CallLog:
         return self.calls[m:]
 
 
+# the ways the same table can be DECLARED
+DECL_STYLES = ("table", "table", "to_metadata", "extend_existing", "column_copy", "mapped_column", "annotated",
+               "annotated", "type_annotation_map", "mixin", "dataclass", "dataclass_annotated")
+
+
 class Schema:
-    def __init__(self, sa, rng, log, name, m):
+    def __init__(self, sa, rng, log, name, m, orm=None):
         self.sa = sa
+        self.cls = None
+        self.registry = None
         self.log = log
         self.name = name
         self.kinds = [(rng.choice(DEF_KINDS), rng.choice(UPD_KINDS)) for _ in range(m)]
@@ -85,8 +102,10 @@ class Schema:
         md = sa.MetaData()
         cols = [sa.Column("id", sa.Integer, primary_key=True), sa.Column("p", sa.String, unique=True),
                 sa.Column("g", sa.Integer), sa.Column("mark", sa.String)]
+        kws = []
         for j, (dk, uk) in enumerate(self.kinds):
             kw = {}
+            kws.append(kw)
             if dk == "scalar":
                 kw["default"] = f"sd{j}"
             elif dk == "scalar_falsy":
@@ -108,9 +127,119 @@ class Schema:
             elif uk == "sql":
                 kw["onupdate"] = sa.func.lower(sa.literal("SQU") + str(j))
             cols.append(sa.Column(f"c{j}", sa.String, **kw))
-        self.md = md
-        self.t = sa.Table(name, md, *cols, implicit_returning=self.implicit_returning)
         self.cnames = [f"c{j}" for j in range(m)]
+        self.decl = rng.choice(DECL_STYLES) if orm is not None else "table"
+        self.decl_detail = {}
+        if self.decl == "table":
+            self.md = md
+            self.t = sa.Table(name, md, *cols, implicit_returning=self.implicit_returning)
+        elif self.decl == "to_metadata":
+            t0 = sa.Table(name, md, *cols, implicit_returning=self.implicit_returning)
+            self.md = sa.MetaData()
+            self.t = t0.to_metadata(self.md)
+        elif self.decl == "extend_existing":
+            self.md = md
+            sa.Table(name, md, sa.Column("id", sa.Integer, primary_key=True), sa.Column("c0", sa.String))
+            self.t = sa.Table(name, md, *cols, extend_existing=True, implicit_returning=self.implicit_returning)
+        elif self.decl == "column_copy":
+            self.md = md
+            self.t = sa.Table(name, md, *[c._copy() for c in cols], implicit_returning=self.implicit_returning)
+        else:
+            self._declarative(sa, orm, rng, name, kws)
+        # the Table column must carry every declared generator, of the declared kind
+        self.declared = kws
+
+    def _declarative(self, sa, orm, rng, name, kws):
+        """the same columns through the ORM's declarative forms: mapped_column() directly, pep-593
+        Annotated[...] types carrying some of the generators while the attribute's own
+        mapped_column() carries the rest, a type_annotation_map supplying the SQL type, a mixin
+        (plain attributes and declared_attr), dataclass mappings"""
+        import types
+        from typing import Annotated
+        from typing import Optional
+
+        Mapped, mc = orm.Mapped, orm.mapped_column
+        dataclass = self.decl.startswith("dataclass")
+        bases = (orm.MappedAsDataclass, orm.DeclarativeBase) if dataclass else (orm.DeclarativeBase,)
+        base_ns = {}
+        if self.decl == "type_annotation_map":
+            base_ns["type_annotation_map"] = {str: sa.String(77)}
+        Base = types.new_class("Base", bases, {}, lambda ns: ns.update(base_ns))
+        ann = {"id": Mapped[int], "p": Mapped[Optional[str]], "g": Mapped[Optional[int]], "mark": Mapped[Optional[str]]}
+        dflt = {"default": None} if dataclass else {}
+        ns = {"__tablename__": name, "__table_args__": {"implicit_returning": self.implicit_returning},
+              "id": mc(sa.Integer, primary_key=True, **({"init": False} if dataclass else {})),
+              "p": mc(sa.String, unique=True, **dflt), "g": mc(sa.Integer, **dflt), "mark": mc(sa.String, **dflt)}
+        mixin_ns, mixin_ann = {}, {}
+        for j, kw in enumerate(kws):
+            cn = f"c{j}"
+            kw = dict(kw)
+            # dataclass fields: ``default=`` is the dataclass-level default (and, for a plain scalar,
+            # also the Column default); it is mutually exclusive with insert_default=, so a field
+            # with an INSERT default generator is init=False, every other field defaults to None
+            field = {}
+            if dataclass:
+                if isinstance(kw.get("default"), str) and rng.random() < 0.5:
+                    pass                                   # scalar: dataclass default == Column default
+                elif "default" in kw:
+                    kw["insert_default"] = kw.pop("default")
+                    field = {"init": False}
+                else:
+                    field = {"default": None}
+            elif "default" in kw and rng.random() < 0.5:
+                kw["insert_default"] = kw.pop("default")     # the two spellings of the INSERT default
+            typ = () if self.decl == "type_annotation_map" else (sa.String,)
+            if self.decl in ("annotated", "dataclass_annotated"):
+                # each generator is declared in exactly one place: inside the Annotated type or on
+                # the attribute's own right-hand mapped_column()
+                inside = {k2: v for k2, v in kw.items() if rng.random() < 0.5}
+                outside = {k2: v for k2, v in kw.items() if k2 not in inside}
+                self.decl_detail[cn] = {"annotated": sorted(inside), "attribute": sorted(outside)}
+                ann[cn] = Mapped[Annotated[Optional[str], mc(*typ, **inside)]]
+                if dataclass and ("default" in inside or "insert_default" in inside):
+                    field = {"init": False}                # (the INSERT default lives in the annotation)
+                if outside or field or rng.random() < 0.5:
+                    ns[cn] = mc(**outside, **field)
+            elif self.decl == "mixin" and j % 2 == 0:
+                if j % 4 == 0:
+                    mixin_ann[cn] = Mapped[Optional[str]]
+                    mixin_ns[cn] = mc(*typ, **kw)
+                    self.decl_detail[cn] = "mixin attribute"
+                else:
+                    def attr(cls, typ=typ, kw=kw):
+                        return mc(*typ, **kw)
+
+                    attr.__annotations__ = {"return": Mapped[Optional[str]]}   # (module has postponed annotations)
+                    mixin_ns[cn] = orm.declared_attr(attr)
+                    self.decl_detail[cn] = "mixin declared_attr"
+            else:
+                ann[cn] = Mapped[Optional[str]]
+                ns[cn] = mc(*typ, **kw, **field)
+        ns["__annotations__"] = ann
+        cls_bases = (Base,)
+        if mixin_ns:
+            mixin_ns["__annotations__"] = mixin_ann
+            cls_bases = (type("Mix", (), mixin_ns), Base)
+        kwds = {"kw_only": True} if dataclass else {}
+        self.cls = types.new_class("D" + name, cls_bases, kwds, lambda n_: n_.update(ns))
+        self.registry = Base.registry
+        self.md = Base.metadata
+        self.t = self.cls.__table__
+
+    def declared_generators_missing(self):
+        """[(column, what)] for declared generators the Table column does not carry"""
+        out = []
+        for cn, kw in zip(self.cnames, self.declared):
+            col = self.t.c[cn]
+            for key, attr in (("default", "default"), ("onupdate", "onupdate"), ("server_default", "server_default")):
+                have = getattr(col, attr)
+                if (key in kw) != (have is not None):
+                    out.append((cn, f"{key} declared={key in kw} on table column={have is not None}"))
+                elif key in kw and key != "server_default":
+                    arg = kw[key]
+                    if callable(arg) and not have.is_callable or isinstance(arg, str) and not have.is_scalar:
+                        out.append((cn, f"{key} kind differs: {have!r}"))
+        return out
 
     def _callable(self, tag):
         def fn():
@@ -275,13 +404,22 @@ def run(ctx):
                 break
             ps = ("qmark", "named", "numeric")[k % 3]
             log = CallLog()
-            schema = Schema(sa, rng, log, f"t{ctx.shard}_{k}", rng.randint(3, 6))
+            schema = Schema(sa, rng, log, f"t{ctx.shard}_{k}", rng.randint(3, 6), orm)
+            ctx.seen("declaration_style", schema.decl)
+            ctx.count("declared_generators_checked", sum(len(kw) for kw in schema.declared))
+            missing = schema.declared_generators_missing()
+            if missing:
+                ctx.violation("declared-generator-not-on-table-column",
+                              f"declaration style {schema.decl} {schema.decl_detail}: {missing[:4]}",
+                              {"decl": schema.decl, "detail": schema.decl_detail, "kinds": schema.kinds})
             eng = engines[ps]
             schema.md.create_all(eng)
             try:
                 drive(ctx, sa, orm, rng, eng, paths[ps], schema, log, ps, k)
             finally:
                 schema.md.drop_all(eng)
+                if schema.registry is not None:
+                    schema.registry.dispose()
     finally:
         for e in engines.values():
             e.dispose()
@@ -295,7 +433,9 @@ def drive(ctx, sa, orm, rng, eng, path, schema, log, ps, k):
         uniq[0] += 1
         return f"{tag}{ctx.shard}.{k}.{uniq[0]}"
 
-    base_desc = {"kinds": schema.kinds, "implicit_returning": schema.implicit_returning, "ps": ps}
+    base_desc = {"kinds": schema.kinds, "implicit_returning": schema.implicit_returning, "ps": ps, "decl": schema.decl}
+    if schema.decl_detail:
+        base_desc["decl_detail"] = schema.decl_detail
     model = {}   # payload -> dict colname -> value  (expected table state)
 
     def judge_table(j, phase):
@@ -646,8 +786,11 @@ def account_calls(ctx, J, phase, schema, new_calls, rows, stored, states, per_ro
 def orm_part(ctx, sa, orm, rng, eng, path, schema, log, base_desc, model, fresh):
     t = schema.t
     reg = orm.registry()
-    cls = type("M", (object,), {})
-    reg.map_imperatively(cls, t)
+    if schema.cls is not None:
+        cls = schema.cls         # declarative styles: the class that declared the table
+    else:
+        cls = type("M", (object,), {})
+        reg.map_imperatively(cls, t)
     try:
         nobj = rng.randint(2, 6)
         specs = []
